@@ -39,3 +39,40 @@ def table():
 
 def list_fields(clsname):
     return [f for f, _t, k in table().get(clsname, {}).get("fields", []) if k == "*"]
+
+
+BUILTIN = {"identifier": str, "int": int, "string": (str, bytes), "constant": object}
+
+
+def type_problems(node):
+    """Every field of `node` against its declared ASDL type: sort of child nodes, presence of required fields, None only in
+    optional fields (and in the documented `expr?*` places: Dict.keys, defaults of kw-only arguments)."""
+    name = type(node).__name__
+    out = []
+    for fname, ty, kind in table().get(name, {}).get("fields", []):
+        if ty == "?":
+            continue
+        if not hasattr(node, fname):
+            if kind == "1":
+                out.append(f"{name}.{fname} missing (required {ty})")
+            continue
+        v = getattr(node, fname)
+        items = v if (kind == "*" and isinstance(v, list)) else [v]
+        for x in items:
+            if x is None:
+                if ty == "constant":
+                    continue  # None IS a constant value
+                if kind == "?" or (name, fname) in (("Dict", "keys"), ("arguments", "kw_defaults")):
+                    continue
+                out.append(f"{name}.{fname} holds None (declared {ty}{'' if kind == '1' else kind})")
+                continue
+            if ty in BUILTIN:
+                if ty == "int" and isinstance(x, bool):
+                    out.append(f"{name}.{fname} is bool")
+                elif not isinstance(x, BUILTIN[ty]):
+                    out.append(f"{name}.{fname} is {type(x).__name__}, declared {ty}")
+                continue
+            want = getattr(ast, ty, None)
+            if want is not None and not isinstance(x, want):
+                out.append(f"{name}.{fname} holds {type(x).__name__}, declared {ty}")
+    return out
